@@ -1143,8 +1143,18 @@ func (w *_structAssembler) AssembleKey() datamodel.NodeAssembler {
 		cfg:        w.cfg,
 		schemaType: schemaTypeString,
 		val:        reflect.New(goTypeString).Elem(),
+		finish:     func() error { return w.repeatedField(w.curKey.val.String()) },
 	}
 	return &w.curKey
+}
+
+// repeatedField returns ErrRepeatedMapKey if the named field was assembled before.
+func (w *_structAssembler) repeatedField(name string) error {
+	ftyp, ok := w.val.Type().FieldByName(fieldNameFromSchema(name))
+	if ok && len(ftyp.Index) == 1 && w.doneFields[ftyp.Index[0]] {
+		return datamodel.ErrRepeatedMapKey{Key: basicnode.NewString(name)}
+	}
+	return nil
 }
 
 func (w *_structAssembler) AssembleValue() datamodel.NodeAssembler {
